@@ -5,7 +5,7 @@ import itertools
 
 import numpy as np
 
-from .. import refmodel, world as W
+from .. import refmodel, seams, world as W
 from ..core import exc_brief, exc_site
 from ..prng import shuffled, subset, weighted
 from ..realise import Mismatch, Names, build_bn, factor_to_logical, to_np
@@ -92,7 +92,7 @@ def generate(streams, tier):
                     rows.append([ev[v] for v in cols])
             if rows:
                 ops.append({"api": "predict_proba", "cols": cols, "rows": rows})
-    return {"world": world, "config": config, "ops": ops}
+    return {"world": world, "config": config, "ops": ops, "backend": streams.s("config").choice(seams.BACKENDS)}
 
 
 def describe(case):
@@ -123,17 +123,15 @@ def make_virtual(world, names, virt, as_factor=False):
     return out
 
 
-def check_posterior(ctx, names, ref, res, q, ev, virt, joint, what):
-    """Compare a query result with the oracle.  Returns True if fine."""
-    ok = True
+def posterior_problems(names, ref, res, q, ev, virt, joint, what):
+    """Compare a query result with the oracle.  Returns a list of (clause, signature, detail)."""
+    out = []
     try:
         if joint:
             lv, arr = factor_to_logical(res, names, expect_vars=q)
             want = ref.posterior(lv, ev, virt)
             if not close(arr, want):
-                ctx.fail("value", f"{PROP}:value:{what}", {"got": arr.round(9).tolist(), "want": want.round(9).tolist(),
-                                                           "maxdiff": maxdiff(arr, want)})
-                ok = False
+                out.append(("value", f"{PROP}:value:{what}", {"got": arr.round(9).tolist(), "want": want.round(9).tolist(), "maxdiff": maxdiff(arr, want)}))
         else:
             if not isinstance(res, dict):
                 raise Mismatch(f"joint=False returned {type(res).__name__}")
@@ -149,12 +147,38 @@ def check_posterior(ctx, names, ref, res, q, ev, virt, joint, what):
                 lv, arr = factor_to_logical(phi, names, expect_vars=[v])
                 want = ref.posterior([v], ev, virt)
                 if not close(arr, want):
-                    ctx.fail("value", f"{PROP}:value:{what}", {"var": v, "got": arr.round(9).tolist(), "want": want.round(9).tolist()})
-                    ok = False
+                    out.append(("value", f"{PROP}:value:{what}", {"var": v, "got": arr.round(9).tolist(), "want": want.round(9).tolist()}))
     except Mismatch as e:
-        ctx.fail("labels", f"{PROP}:labels:{what}", str(e))
-        ok = False
-    return ok
+        out.append(("labels", f"{PROP}:labels:{what}", str(e)))
+    return out
+
+
+TORCH32_SIG = f"{PROP}:value:torch_backend_rounds_values_through_float32"
+
+
+def through_float32(x):
+    return float(np.float32(x))
+
+
+def world_through_float32(world):
+    """The same network with every table entry rounded to single precision and back (what the torch backend stores)."""
+    w = copy.deepcopy(world)
+    w["tables"] = [[[through_float32(x) for x in row] for row in t] for t in w["tables"]]
+    return w
+
+
+def check_posterior(ctx, names, ref, res, q, ev, virt, joint, what, ref32=None):
+    """Records the problems of a query result.  ref32 (torch backend only): explained-by predicate of the known finding
+    'values pass through float32' - value mismatches that vanish against the float32-rounded network carry its signature."""
+    probs = posterior_problems(names, ref, res, q, ev, virt, joint, what)
+    if probs and ref32 is not None and all(c == "value" for c, _, _ in probs):
+        virt32 = [(v, [through_float32(x) for x in l]) for v, l in virt]
+        if not posterior_problems(names, ref32, res, q, ev, virt32, joint, what):
+            ctx.fail("value", TORCH32_SIG, probs[0][2])
+            return False
+    for c, sg, d in probs:
+        ctx.fail(c, sg, d)
+    return not probs
 
 
 def execute(case, ctx):
@@ -163,6 +187,14 @@ def execute(case, ctx):
     world, config = case["world"], case["config"]
     names = Names(world)
     ref = RefJoint.from_bn(world)
+    backend = seams.effective_backend(case.get("backend", "numpy"), [x for t in world["tables"] for row in t for x in row])
+    seams.set_backend(backend)
+    if backend != "numpy":
+        ctx.fault("backend_config")
+    single = backend.endswith("float32")
+    if single:
+        ctx.probe("dtype_float32")
+    ref32 = RefJoint.from_bn(world_through_float32(world)) if backend == "torch" else None
     model = build_bn(world, config, names)
     model.check_model()
     ctx.sig_order("labels", [names.lab2idx[x] for x in set(names.labels)])
@@ -185,6 +217,8 @@ def execute(case, ctx):
             if any(s >= world["card"][v] for v, s in ev.items()):
                 continue
             if ref.prob_evidence(ev, virt) <= 1e-13 * min([x for _, l in virt for x in l if x > 0] or [1.0]):
+                continue
+            if single and (ref.prob_evidence(ev, virt) < 1e-5 or any(0 < x < 1e-3 for _, l in virt for x in l)):
                 continue
             order = _order_arg(op, names)
             ctx.fault("option_swarm")
@@ -216,7 +250,7 @@ def execute(case, ctx):
                 ctx.fail("succeeds", sig, exc_brief(e))
                 continue
             ctx.checked += 1
-            if check_posterior(ctx, names, ref, res, q, ev, virt, op["joint"], "query"):
+            if check_posterior(ctx, names, ref, res, q, ev, virt, op["joint"], "query", ref32=ref32):
                 ctx.event("ok")
         elif api == "state_prob":
             st = int_evidence(op["states"])
@@ -231,7 +265,10 @@ def execute(case, ctx):
             want = ref.prob_evidence(st)
             ctx.checked += 1
             if not close(p, want):
-                ctx.fail("value", f"{PROP}:value:state_prob", {"got": p, "want": want})
+                if ref32 is not None and close(p, ref32.prob_evidence(st)):
+                    ctx.fail("value", TORCH32_SIG, {"got": p, "want": want, "api": "get_state_probability"})
+                else:
+                    ctx.fail("value", f"{PROP}:value:state_prob", {"got": p, "want": want})
         elif api == "predict_proba":
             import pandas as pd
 
@@ -263,7 +300,10 @@ def execute(case, ctx):
                             break
                         got = float(out[col].iloc[ri])
                         if not close(got, want[s]):
-                            ctx.fail("value", f"{PROP}:value:predict_proba", {"col": col, "row": r, "got": got, "want": float(want[s])})
+                            if ref32 is not None and close(got, ref32.posterior([v], ev)[s]):
+                                ctx.fail("value", TORCH32_SIG, {"col": col, "row": r, "got": got, "want": float(want[s]), "api": "predict_probability"})
+                            else:
+                                ctx.fail("value", f"{PROP}:value:predict_proba", {"col": col, "row": r, "got": got, "want": float(want[s])})
                             break
 
 
@@ -271,6 +311,10 @@ def execute(case, ctx):
 def shrink_candidates(case):
     w = case["world"]
     n = w["n"]
+    if case.get("backend", "numpy") != "numpy":
+        c = copy.deepcopy(case)
+        c["backend"] = "numpy"
+        yield c
     # remove an edge
     for v in range(n):
         for p in list(w["parents"][v]):
